@@ -149,6 +149,28 @@ META5 = {
  "C19": ("conversion from storage by types to storage by signals sums only the rephasing and non-rephasing signals (the double-coherence signal R3fs+R4fs is dropped)", "contributions of types R3fs/R4fs, then a reduction that passes through types -> signals"),
  "C20": ("distributed Redfield rate calculation slices the correlation-function integrals with the local block offset", "Redfield rates computed on more than one (simulated) process"),
 }
+META6 = {
+ "C01": ("five-index RelaxationTensor.transform rewritten with einsum; the fourth tensor index is transformed with S instead of the inverse", "time-dependent Foerster / combined Redfield-Foerster tensor read in a basis reached by a unitary matrix with complex elements"),
+ "C02": ("state-vector propagation accumulates the Taylor terms in place on the caller's storage (asarray without copy)", "complex128 initial StateVector used again after a propagation"),
+ "C03": ("per-aggregate cache of site dipoles filled on first use and not reset by clean()/rebuild()", "molecule.dmoments replaced as a whole, or a deepcopy/scopy of a built aggregate changed and rebuilt"),
+ "C04": ("DensityMatrixEvolution.set_initial_condition registers the evolution with the current basis unconditionally (double registration)", "set_initial_condition inside a context on an evolution already registered there"),
+ "C05": ("CorrelationFunction re-uses one shared energy_units('int') context object (not re-entrant: nested entry overwrites its backup)", "copy(), + or += of an UnderdampedBrownian correlation function inside a non-internal units context"),
+ "C06": ("Foerster integrals memoised under a key that loses which site is the donor", "sites with different baths and equal bare energies (or two equal gaps with swapped baths)"),
+ "C07": ("TD Redfield: for real-valued correlation functions only half of the frequency integrals are computed, the other half filled without the complex conjugate", "real-valued (value-defined) bath correlation functions, coupled sites, full tensor compared"),
+ "C08": ("EvolutionSuperOperator.apply at a single time writes the result into the target's existing array", "state whose matrix is stored as a real or integer array, coherent dynamics"),
+ "C09": ("add_to_data adds the other function's reorganisation energy through the units-converting accessor", "a + b evaluated inside a non-internal energy-units context"),
+ "C10": ("early exit in transition_dipole comparing mode positions of the vibrational signature with a molecule index", "a molecule with two or more modes, or a mode-less molecule in front of one with modes"),
+ "C11": ("monomer branch takes the line position from get_energy(1) instead of the transition energy", "molecule whose ground-state energy is not zero"),
+ "C12": ("liouville_pathways_3T keeps an alias of the superoperator data read inside eigenbasis_of (transformed back on exit)", "pathways generated with the complete EvolutionSuperOperator passed directly, t2 > 0, eigenbasis different from the site basis"),
+ "C13": ("memo of the last (inverse) Fourier transform keyed on the identity of the values array", "values changed in place between two transforms of the same DFunction"),
+ "C14": ("get_thermal_ReducedDensityMatrix diagonalises the raw H._data instead of entering eigenbasis_of(H)", "request made inside a basis context before H.data was touched there; molecule with two modes or thermally mixed levels"),
+ "C15": ("EvolutionSuperOperator converts the caller's operator-form tensor to tensor form in place before the unit propagations", "evolution superoperator over an operator-form tensor shared with a propagator"),
+ "C16": ("sub-stepping added to KTHierarchyPropagator.propagate with the reduced step written back into self.dt", "max(Gamma) dt > 1 (fast baths, deep hierarchy, coarse step) and a second propagate() on the same propagator"),
+ "C17": ("symmetric fast path (allclose + eigh) for the exponential in get_PropagationMatrix", "rate matrices that are almost but not exactly symmetric (sixth-digit differences, or slow channels below 1e-8/fs)"),
+ "C18": ("savedir re-reads the tag index only when the directory name changed since this object's last save", "A.savedir(d); B.savedir(d); A.savedir(d), or an object loaded from the directory saved into it again"),
+ "C19": ("resolution conversion walks down step by step and raises only when it runs out of levels (a refused processes -> signals request collapses the storage to 'off' first)", "set_resolution('signals') on a response stored by processes, object inspected after the refusal"),
+ "C20": ("fewer indices than processes: block ends computed as min(rank+1, stop) instead of min(rank+1, remainder)", "range shorter than the number of processes with a non-zero start"),
+}
 pid = sys.argv[1]
 src = sys.argv[2] if len(sys.argv) > 2 else "/tmp/seed/" + pid
 dname = sys.argv[3] if len(sys.argv) > 3 else pid
@@ -161,6 +183,8 @@ elif dname.endswith("-d"):
     META = META4
 elif dname.endswith("-e"):
     META = META5
+elif dname.endswith("-f"):
+    META = META6
 os.makedirs(dst, exist_ok=True)
 for f in ("patch.diff", "demo.py"):
     shutil.copy(os.path.join(src, f), os.path.join(dst, f))
@@ -173,7 +197,7 @@ for tier in ("quick", "thorough"):
     res[tier] = {"demo_exit_unmodified": int(m.group(1)), "demo_exit_with_change": int(m.group(2)), "check_exit": int(m.group(3)), "first_clause": m.group(4).strip()[:160]}
     print(out[:200])
 head = subprocess.run(["git", "-C", "/repo", "rev-parse", "--short", "HEAD"], capture_output=True, text=True).stdout.strip()
-meta = {"property": pid, "origin": "fresh sub-agent given only the property text and a scratch worktree" + (" (second round: asked to aim at a different clause than the first seed)" if dname.endswith("-b") else (" (third round: two earlier targets excluded, list of hard-to-notice kinds of change given)" if dname.endswith("-c") else (" (fourth round: three earlier targets excluded)" if dname.endswith("-d") else (" (fifth round: four earlier targets excluded)" if dname.endswith("-e") else "")))),
+meta = {"property": pid, "origin": "fresh sub-agent given only the property text and a scratch worktree" + (" (second round: asked to aim at a different clause than the first seed)" if dname.endswith("-b") else (" (third round: two earlier targets excluded, list of hard-to-notice kinds of change given)" if dname.endswith("-c") else (" (fourth round: three earlier targets excluded)" if dname.endswith("-d") else (" (fifth round: four earlier targets excluded)" if dname.endswith("-e") else (" (sixth round: five earlier targets excluded, a clause to aim at named)" if dname.endswith("-f") else ""))))),
         "what": META[pid][0], "needs_to_manifest": META[pid][1],
         "confirmed": {"repo_head": head, "patch_applies": True,
                       "pinned_suite_with_change": "148/148 stable tests pass (pinned suite run on the tree with the change applied: ./baseline.sh on /repo, or ./baseline_scratch.sh on a scratch copy for round 5)",
